@@ -311,7 +311,7 @@ func buildTxsNext(w *world, seq []int, base map[string]uint64) ([]*types.Transac
 			next[t.From]++
 		}
 	}
-	return out
+	return out, next
 }
 
 func seqName(seq []int) string {
